@@ -149,7 +149,25 @@ def row_new(row):
                 order = "false"
             else:
                 raise Shape("extractor arguments %s" % args)
-            return [guard, order]
+            # before the call: is an instance of a SUBCLASS of dict copied into an exact dict (the compiled
+            # helper is typed `dict data`, which refuses subclasses)?
+            branch = st.body if in_body is not None else st.orelse
+            copies = "false"
+            for s0 in branch:
+                if s0 is call or any(sub is call for sub in ast.walk(s0)):
+                    break
+                u = ast.unparse(s0)
+                if u == "data = dict(data)":
+                    copies = "true"
+                elif isinstance(s0, ast.If) and ast.unparse(s0.test) in ("type(data) is not dict", "not type(data) is dict",
+                                                                         "type(data) != dict") and not s0.orelse:
+                    if [ast.unparse(x) for x in s0.body if not isinstance(x, ast.Expr)] == ["data = dict(data)"]:
+                        copies = "true"
+                    else:
+                        raise Shape("subclass branch")
+                elif isinstance(s0, (ast.If, ast.Assign)) and "data" in u:
+                    raise Shape("statement before the extractor call: %s" % u[:40])
+            return [guard, order, copies]
     raise Shape("no dictionary branch in Row.__new__")
 
 
@@ -262,6 +280,80 @@ def views(row):
 PINNED_VIEWS = {"order": ["as_map", "values", "keys", "as_dict", "as_json"],
                 "terms": {"as_map": "(List.zip fields row)", "as_dict": "(ofPairs (asMapExpr fields row))", "values": "row",
                           "keys": "fields", "as_json": "(asDictExpr fields row)"}}
+
+
+VIEW_CTOR = {"as_map": "asMap", "as_dict": "asDict", "values": "values", "keys": "keys", "as_json": "asJson"}
+VIEW_PARAM = {"as_map": "mapV", "as_dict": "dictV", "values": "valsV", "keys": "keysV"}
+VIEW_NAMES = ("as_map", "as_dict", "values", "keys", "as_json")
+
+
+def view_objects(row):
+    """What kind of OBJECT each view hands out: evaluated on every read (`@property`, plain method) or once and
+    stored on the row (`@cached_property`); of a kind the caller can change (dict, list) or not (tuple, bytes,
+    the row itself); the class's own field tuple; and which other views its expression reads, in order."""
+    vw = views(row)  # the expressions themselves (raises Shape when they are not in a recognised form)
+    cached, mutable, alias = {}, {}, {}
+    for name in VIEW_NAMES:
+        fn = row.func(name, "Row")
+        decos = [ast.unparse(d) for d in fn.decorator_list]
+        if decos in (["property"], []):
+            cached[name] = "false"
+        elif decos in (["cached_property"], ["functools.cached_property"]):
+            cached[name] = "true"
+        else:
+            raise Shape("%s decorated %s" % (name, decos))
+        if (decos == []) != (name == "keys"):
+            raise Shape("%s: method/property" % name)
+        body = [s for s in fn.body if not (isinstance(s, ast.Expr) and isinstance(s.value, ast.Constant))]
+        e = body[0].value
+        u = ast.unparse(e)
+        alias[name] = "true" if u == "self._fields" else "false"
+        if u == "self._fields":
+            mutable[name] = "fieldsMutable"
+        elif u == "self" or isinstance(e, ast.Tuple):
+            mutable[name] = "false"
+        elif isinstance(e, ast.Call) and ast.unparse(e.func) in ("tuple", "orjson.dumps", "bytes", "frozenset"):
+            mutable[name] = "false"
+        elif (isinstance(e, ast.Call) and ast.unparse(e.func) in ("dict", "list")) or isinstance(
+                e, (ast.ListComp, ast.List, ast.Dict, ast.DictComp)):
+            mutable[name] = "true"
+        else:
+            raise Shape("%s returns %s" % (name, u[:40]))
+    cc = row.func("create_class", "Row")
+    fm = None
+    for st in ast.walk(cc):
+        if isinstance(st, ast.Assign) and len(st.targets) == 1 and ast.unparse(st.targets[0]) == "fields":
+            v = st.value
+            if isinstance(v, ast.Call) and ast.unparse(v.func) == "tuple":
+                fm = "false"
+            elif (isinstance(v, ast.Call) and ast.unparse(v.func) == "list") or isinstance(v, (ast.ListComp, ast.List)):
+                fm = "true"
+            else:
+                raise Shape("fields = %s" % ast.unparse(v)[:40])
+    if fm is None:
+        raise Shape("fields = tuple(...)")
+    ref = {"(%s fields row)" % VIEW_DEFS[n]: VIEW_PARAM[n] for n in VIEW_PARAM}
+    deps, frm = {}, {}
+    for name in VIEW_NAMES:
+        t = vw["terms"][name]
+        found = sorted((t.index(k), n) for n in VIEW_PARAM for k in ["(%s fields row)" % VIEW_DEFS[n]] if k in t)
+        deps[name] = [n for _, n in found]
+        for k, v in ref.items():
+            t = t.replace(k, v)
+        frm[name] = t
+    rank = {n: vw["order"].index(n) for n in VIEW_NAMES}
+    return {"cached": cached, "mutable": mutable, "alias": alias, "fields_mutable": fm, "deps": deps, "from": frm, "rank": rank}
+
+
+PINNED_OBJECTS = {
+    "cached": {"as_map": "true", "as_dict": "false", "values": "false", "keys": "false", "as_json": "false"},
+    "mutable": {"as_map": "false", "as_dict": "true", "values": "false", "keys": "fieldsMutable", "as_json": "false"},
+    "alias": {"as_map": "false", "as_dict": "false", "values": "false", "keys": "true", "as_json": "false"},
+    "fields_mutable": "false",
+    "deps": {"as_map": [], "as_dict": ["as_map"], "values": [], "keys": [], "as_json": ["as_dict"]},
+    "from": {"as_map": "(List.zip fields row)", "as_dict": "(ofPairs mapV)", "values": "row", "keys": "fields", "as_json": "dictV"},
+    "rank": {"as_map": 0, "values": 1, "keys": 2, "as_dict": 3, "as_json": 4},
+}
 
 
 def row_get(row):
@@ -401,17 +493,27 @@ def frame_append(df):
                 raise Shape("self._rows.append(%s)" % a)
     if made is None or stored is None:
         raise Shape("append")
-    return [made, stored]
+    copies = "false"
+    for st in fn.body:
+        if isinstance(st, ast.If) and not st.orelse and [ast.unparse(x) for x in st.body if not isinstance(x, ast.Expr)] == ["entry = dict(entry)"]:
+            t = ast.unparse(st.test)
+            if t in ("isinstance(entry, MutableMapping) and type(entry) is not dict", "type(entry) is not dict and isinstance(entry, MutableMapping)",
+                     "isinstance(entry, dict) and type(entry) is not dict"):
+                copies = "true"
+            else:
+                raise Shape("entry = dict(entry) under %s" % t[:40])
+    return [made, stored, copies]
 
 
 PINNED = {
     "c02.pyx.extract_loop": PINNED_LOOP,
-    "c02.row.new": ["true", "true"],
+    "c02.row.new": ["true", "true", "true"],
     "c02.row.create_class": ["false", "(if tuplesOnly then false else true)"],
     "c02.row.views": PINNED_VIEWS,
+    "c02.row.view_objects": PINNED_OBJECTS,
     "c02.row.get": ["true", "index"],
     "c02.dataframe.init_dictionaries": PINNED_FRAME,
-    "c02.dataframe.append": ["true", "true"],
+    "c02.dataframe.append": ["true", "true", "true"],
 }
 
 # ----------------------------------------------------------------------------- text
@@ -425,6 +527,7 @@ def generate(o):
     nw = o.item("c02.row.new", lambda: row_new(row), PINNED["c02.row.new"])
     cc = o.item("c02.row.create_class", lambda: create_class(row), PINNED["c02.row.create_class"])
     vw = o.item("c02.row.views", lambda: views(row), PINNED["c02.row.views"])
+    vo = o.item("c02.row.view_objects", lambda: view_objects(row), PINNED["c02.row.view_objects"])
     gt = o.item("c02.row.get", lambda: row_get(row), PINNED["c02.row.get"])
     fr = o.item("c02.dataframe.init_dictionaries", lambda: frame_init(df), PINNED["c02.dataframe.init_dictionaries"])
     ap = o.item("c02.dataframe.append", lambda: frame_append(df), PINNED["c02.dataframe.append"])
@@ -436,7 +539,7 @@ def generate(o):
           "`create_class` (orso/row.py) and the dictionary constructor / `append` of orso/dataframe.py, lifted from the\n"
           "source (harness/extractors/c02.py).  Model/DictRowCode.lean assembles them; Props/C02.lean proves the\n"
           "assembled code equal to the specification functions of Model/DictRow.lean. -/\n")
-    t += "set_option linter.unusedVariables false\nnamespace Gen.DictCode\nopen DictRow (ofPairs)\n\n"
+    t += "set_option linter.unusedVariables false\nnamespace Gen.DictCode\nopen DictRow (ofPairs View)\n\n"
     t += "/-! ### compiled.pyx — extract_dict_columns -/\n"
     t += "/-- number of iterations: `range(num_fields)` with `num_fields = len(fields)` -/\n"
     t += "def loopCount (lenFields : Int) : Int := %s\n" % lp["count"]
@@ -457,6 +560,8 @@ def generate(o):
     t += "def newGuardIsDict : Bool := %s\n" % nw[0]
     t += "/-- `data = extract_dict_columns(data, cls._fields)`: the dictionary first, the class's field tuple second -/\n"
     t += "def newExtractorArgsInOrder : Bool := %s\n" % nw[1]
+    t += "/-- `if type(data) is not dict: data = dict(data)` before the call (the compiled helper takes exact dictionaries only) -/\n"
+    t += "def newCopiesSubclass : Bool := %s\n" % nw[2]
     t += "/-- default of `create_class(..., tuples_only=…)` -/\n"
     t += "def tuplesOnlyDefault : Bool := %s\n" % cc[0]
     t += "/-- whether the class returned for a given `tuples_only` keeps `Row.__new__` (the one that handles dictionaries) -/\n"
@@ -465,6 +570,25 @@ def generate(o):
     for name in vw["order"]:
         t += doc.get(name, "")
         t += "def %s {α : Type} (fields : List String) (row : List α) : %s := %s\n" % (VIEW_DEFS[name], sig[name], vw["terms"][name])
+    t += "\n/-! ### row.py — the OBJECT each view hands out -/\n"
+    t += "/-- `@cached_property`: evaluated on the first read, the object stored on the row and handed out again -/\n"
+    t += "def viewCached : View → Bool\n" + "".join("  | .%s => %s\n" % (VIEW_CTOR[n], vo["cached"][n]) for n in VIEW_NAMES)
+    t += "/-- the class's field tuple (`fields = tuple(...)` in create_class) is of a kind that can be changed in place -/\n"
+    t += "def fieldsMutable : Bool := %s\n" % vo["fields_mutable"]
+    t += "/-- the returned object is of a kind the caller can change in place (dict, list; not tuple, bytes) -/\n"
+    t += "def viewMutable : View → Bool\n" + "".join("  | .%s => %s\n" % (VIEW_CTOR[n], vo["mutable"][n]) for n in VIEW_NAMES)
+    t += "/-- the returned object is the class's own `_fields` -/\n"
+    t += "def viewAliasesFields : View → Bool\n" + "".join("  | .%s => %s\n" % (VIEW_CTOR[n], vo["alias"][n]) for n in VIEW_NAMES)
+    t += "/-- the other views the expression reads (`self.as_map`, …), in evaluation order -/\n"
+    t += "def viewDeps : View → List View\n" + "".join(
+        "  | .%s => [%s]\n" % (VIEW_CTOR[n], ", ".join("." + VIEW_CTOR[d] for d in vo["deps"][n])) for n in VIEW_NAMES)
+    t += "/-- position in the order in which the views can be defined (a view only reads views of lower rank) -/\n"
+    t += "def viewRank : View → Nat\n" + "".join("  | .%s => %d\n" % (VIEW_CTOR[n], vo["rank"][n]) for n in VIEW_NAMES)
+    t += "/-- the return expressions again, with what the other views returned as parameters -/\n"
+    for name in VIEW_NAMES:
+        t += ("def %s {α : Type} (fields : List String) (row : List α) (mapV dictV : List (String × α)) (valsV : List α) "
+              "(keysV : List String) : %s := %s\n" % (VIEW_DEFS[name].replace("Expr", "From").replace("asJsonViewFrom", "asJsonFrom"),
+                                                       sig[name], vo["from"][name]))
     t += "/-- `except ValueError: return default` -/\n"
     t += "def getAbsentReturnsDefault : Bool := %s\n" % gt[0]
     t += "/-- `return self[index]` -/\n"
@@ -486,5 +610,7 @@ def generate(o):
     t += "/-- `new_row = self._row_factory(entry)` … `self._rows.append(new_row)` -/\n"
     t += "def appendBuildsRowWithFactory : Bool := %s\n" % ap[0]
     t += "def appendStoresNewRow : Bool := %s\n" % ap[1]
+    t += "/-- `if isinstance(entry, MutableMapping) and type(entry) is not dict: entry = dict(entry)` -/\n"
+    t += "def appendCopiesSubclass : Bool := %s\n" % ap[2]
     t += "end Gen.DictCode\n"
     o.files["DictCode.lean"] = t
